@@ -25,7 +25,7 @@ LineOK(e) ==
   CASE e.t = "pool" -> /\ e.own_verifies
                        /\ (pool0 = <<>> \/ pool0 = <<Transcript(e)>>)
                        /\ e.foreign \in {<<>>, <<TRUE, FALSE>>}     \* another process' message: accepted; its tampered copy: not
-    [] e.t = "seqref" -> e.resp.res # "panic"
+    [] e.t = "seqref" -> e.resp.res # "panic" \/ e.name = "poseidon_bad"     \* (the one deliberately failing call may fail as it likes)
     [] e.t = "call" -> e.call \in DOMAIN ref /\ e.resp = ref[e.call]
     [] e.t = "thread" -> e.finished
     [] e.t = "reopen" -> e.res = "ok" /\ e.ms <= ReopenBoundMs /\ e.leaf_ok /\ e.leaves = e.n + 1
